@@ -267,6 +267,10 @@ type Config struct {
 	// Stop, when non-nil, is polled between executions; returning true ends
 	// the exploration early (Complete=false).
 	Stop func() bool
+	// RootFilter, when non-nil, restricts the successors of the default
+	// execution to the deviation points it accepts: lets several workers share
+	// one exploration (each runs the default execution and its part of the tree).
+	RootFilter func(pointIndex int) bool
 }
 
 // Stats describes a finished exploration.
@@ -328,6 +332,9 @@ func Explore(cfg Config, body func(), visit func(points []Point) bool) Stats {
 		var succ []item
 		for i := len(it.prefix); i < len(pts); i++ {
 			p := pts[i]
+			if cfg.RootFilter != nil && len(it.prefix) == 0 && !cfg.RootFilter(i) {
+				continue
+			}
 			cl := cfg.class(p.Site)
 			b, ok := cfg.Budget[cl]
 			if !ok {
